@@ -13,6 +13,7 @@ EXPLANATION = (
     "end; each statistics field reports the length of the table of the same name; scans over padded/truncated tag "
     "keys re-verify the full value before acting. Agreement of all filter shapes over all histories is not decided.")
 EXPLANATION += ' Also decided: in every caller, Ok-outcomes of deindex and deindex_id alternate on every path to Ok and address the same event.'
+EXPLANATION += ' Also decided: a scan bound assembled by hand over a table whose key builder cuts the value at a fixed width does not take the whole of an unbounded value.'
 ASSUMPTIONS = []
 
 
